@@ -47,6 +47,40 @@ LOGU = {"dBm", "dBW", "dBmW", "dBV", "dBuV", "dB", "Np"}
 _CANDELA = Quantity(1, "cd")
 
 
+
+def twin_reading(a, unit):
+    """What a quantity built now from a's own public report (value(), units()) reads in `unit`.
+    "The same value()" holds for a reading in any unit; a converter or factor remembered on the
+    operand (per unit object, per pair of units) shows only in a reading that converts - and a
+    reading taken by every snapshot would itself prime such a memory, so the reference is a
+    fresh object instead.  Returns (ok, value)."""
+    try:
+        v = a.value()
+        if isinstance(v, np.ndarray):
+            v = v.copy()
+        twin = Quantity(v, a.units()) if a.units() else Quantity(v)
+        with np.errstate(all="ignore"):
+            r = twin.value(unit)
+    except Exception:
+        return False, None
+    return True, r
+
+
+def close_reading(x, y):
+    try:
+        fx = np.asarray(x, dtype=float)
+        fy = np.asarray(y, dtype=float)
+    except Exception:
+        return True
+    if fx.shape != fy.shape:
+        return False
+    both_nan = np.isnan(fx) & np.isnan(fy)
+    same_inf = np.isinf(fx) & np.isinf(fy) & (np.sign(fx) == np.sign(fy))
+    with np.errstate(all="ignore"):
+        near = np.abs(fx - fy) <= 1e-9 * np.maximum(np.abs(fx), np.abs(fy)) + 1e-300
+    return bool(np.all(both_nan | same_inf | near))
+
+
 def snap(q, deep=False):
     """Public observables of a quantity, copied.  With deep=True also the units of q*1:
     units() is a text computed when the unit object was built, the product recomputes it
@@ -741,6 +775,17 @@ class QuantityMachine(Machine):
                         a.value()
                     elif name == "value_unit":
                         got = a.value(op["unit"])
+                        if op["unit"]:
+                            ok, ref = twin_reading(a, op["unit"])
+                            if ok:
+                                self.stats.probe("reading_compared_with_a_fresh_twin")
+                                if not close_reading(got, ref):
+                                    raise Violation(
+                                        "long_lived_quantity_reads_differently_from_a_fresh_one",
+                                        {"quantity": [repr(a.value()), a.units()],
+                                         "unit": op["unit"], "reads": repr(got),
+                                         "a_fresh_quantity_of_the_same_value_and_units_reads": repr(ref)},
+                                        signature="C07/twin_reading/" + ("log" if a.units() in LOGU or op["unit"] in LOGU else "other"))
                         if isinstance(got, np.ndarray) and got.size and op["unit"]:
                             # the caller owns what a query returns: scribbling over it must
                             # not show up in the quantity or in the next query
